@@ -123,6 +123,38 @@ def frame_generic(p):
         r3 = _freeze(f(*copy.deepcopy(b_args), **copy.deepcopy(b_kwargs)))
         if not close(r1c, r3, p.get("tol", 1e-9)):
             raise Violation("%s: the result depends on earlier calls" % p["fn"])
+        # the result belongs to the caller: editing it in place must not change what later calls return (a memoised / shared result would)
+        inputs = [x for x in _arrays(args) + _arrays(list(kwargs.values()))]
+        if _scribble(r1, inputs):
+            r4 = _freeze(f(*copy.deepcopy(b_args), **copy.deepcopy(b_kwargs)))
+            if not close(r1c, r4, p.get("tol", 1e-9)):
+                raise Violation("%s: after the caller modified an earlier result in place, a new call returns a different result (the result aliases state kept by the library)" % p["fn"])
+
+
+def _arrays(x):
+    out = []
+    if isinstance(x, np.ndarray):
+        out.append(x)
+    elif isinstance(x, (list, tuple)):
+        for y in x:
+            out += _arrays(y)
+    elif isinstance(x, dict):
+        for y in x.values():
+            out += _arrays(y)
+    return out
+
+
+def _scribble(r, inputs):
+    """overwrite every writable numeric ndarray inside the result that does not share memory with an argument; True if anything was written"""
+    done = False
+    for a in _arrays(r):
+        if a.dtype.kind not in "biufc" or not a.flags.writeable or a.size == 0:
+            continue
+        if any(np.shares_memory(a, b) for b in inputs):
+            continue  # a documented pass-through (e.g. to_density_matrix of a square matrix) is the caller's own array
+        a[...] = a * 0 + 7
+        done = True
+    return done
 
 
 frame_generic.function = "frame"
